@@ -329,6 +329,38 @@ def doPdhgAcc (l : Line) : Option String := do
   let (s, log) := runLog P.step (·.x) n (P.init x0 xr y (Vec.zero dw) tau sigma theta (junk dv) (junk dw)) []
   some s!"ok log={showLog log} x={showVec s.x} xr={showVec s.xRelax} y={showVec s.y} tau={showRat s.tau} sigma={showRat s.sigma}"
 
+/-- `cgsplit A= rhs= x0= n= m=`: `conjugate_gradient(op, x, rhs, niter=n)` followed by
+`conjugate_gradient(op, x, rhs, niter=m)` on the returned `x`; the log is that of both calls. -/
+def doCgSplit (l : Line) : Option String := do
+  let A ← Line.matR? l "A"
+  let rhs ← l.rats? "rhs"
+  let x0 ← l.rats? "x0"
+  let n ← l.nat? "n"
+  let m ← l.nat? "m"
+  let d := x0.length
+  shape? A d d; len? rhs d
+  let P : CgP Rat RV := ⟨A.mulVec, rhs, Vec.dot, Vec.nsq⟩
+  let s := P.runSplit x0 (junk d) (junk d) n m
+  -- `stopped`: one of the two calls executed an early `return`
+  let st := (iter P.step n (P.init x0 (junk d))).stopped || s.stopped
+  some s!"ok log={showLog s.log} x={showVec s.x} stopped={st}"
+
+/-- `cgnsplit A= At= rhs= x0= n= m=`: the same for `conjugate_gradient_normal`. -/
+def doCgnSplit (l : Line) : Option String := do
+  let A ← Line.matR? l "A"
+  let At ← Line.matR? l "At"
+  let rhs ← l.rats? "rhs"
+  let x0 ← l.rats? "x0"
+  let n ← l.nat? "n"
+  let m ← l.nat? "m"
+  let dv := x0.length
+  let dw := rhs.length
+  shape? A dw dv; shape? At dv dw
+  let P : CgnP Rat RV RV := ⟨A.mulVec, fun _ => At.mulVec, rhs, Vec.nsq, Vec.nsq⟩
+  let s := P.runSplit x0 (junk dw) (junk dw) n m
+  let st := (iter P.step n (P.init x0 (junk dw))).stopped || s.stopped
+  some s!"ok log={showLog s.log} x={showVec s.x} stopped={st}"
+
 def handle (l : Line) : Option String :=
   match l.op with
   | "admm" => doAdmm l
@@ -342,6 +374,8 @@ def handle (l : Line) : Option String :=
   | "pdhg" => doPdhg l
   | "proxgradlam" => doProxGradLam l
   | "pdhgacc" => doPdhgAcc l
+  | "cgsplit" => doCgSplit l
+  | "cgnsplit" => doCgnSplit l
   | _ => none
 
 def main : IO Unit := driverLoop handle
